@@ -51,6 +51,14 @@ def step (s : S) (line : String) : S × String :=
     match u.toNat?, n.toNat? with
     | some u, some n => let s' : S := { unique := u == 1, univ := n }; (s', "ok - " ++ observe s')
     | _, _ => (s, "bad-op")
+  | "extend" :: xs =>
+    -- `extend` / `update` / `+=`: the elements are added one after the other (`C04_run` covers the sequence)
+    match xs.mapM String.toNat? with
+    | none => (s, "bad-op")
+    | some xs =>
+      let s' := xs.foldl (fun (s : S) x =>
+        if s.unique then { s with oset := (s.oset.step (.add x)).1 } else { s with list := (listStep false s.list (.add x)).1 }) s
+      (s', "ok - " ++ observe s')
   | _ =>
     match parseOp ws with
     | none => (s, "bad-op")
